@@ -509,6 +509,7 @@ def make_case(cid, tpls, main, datas, objs=None, undefined="default", globals_=N
             "globals": dict(GLOBALS, **(globals_ or {})),
             "cfg": {"undefined": undefined, "predeclare": flags.get("predeclare", True), "all_auto": all(autos) and not has_ae, "none_auto": not any(autos) and not has_ae},
             **({"tglobals": flags["tglobals"]} if flags.get("tglobals") else {}),
+            **({"tglobals2": flags["tglobals2"]} if flags.get("tglobals2") else {}),
             "marks_safe": marks or any(v.get("m") for d in datas for v in walk(d) if isinstance(v, dict) and v.get("t") == "str"),
             "neutral": flags.get("neutral", False)}
     return case
